@@ -408,6 +408,27 @@ def rule_no_unordered(ctx, rep: Report, rid="R2"):
                     return False
                 if uses and all(member_only(u) for u in uses):
                     continue
+            # a table of sets filled with setdefault(k, set()).add(v) and read only through `x in table[k]`
+            if isinstance(p, ast.Call) and isinstance(p.func, ast.Attribute) and p.func.attr == "setdefault" and n in p.args \
+                    and isinstance(p.func.value, ast.Name):
+                tb = p.func.value.id
+                scope = enclosing(p, (ast.FunctionDef, ast.Module)) or mi.tree
+                ok_uses = True
+                for u in ast.walk(scope):
+                    if isinstance(u, ast.Name) and u.id == tb and isinstance(u.ctx, ast.Load):
+                        q = parent(u)
+                        if isinstance(q, ast.Attribute) and q.attr == "setdefault":
+                            qq = parent(parent(q))
+                            if not (isinstance(qq, ast.Attribute) and qq.attr in ("add", "update", "discard")):
+                                ok_uses = False
+                        elif isinstance(q, ast.Subscript) and q.value is u:
+                            c = parent(q)
+                            if not (isinstance(c, ast.Compare) and q in c.comparators and all(isinstance(o, (ast.In, ast.NotIn)) for o in c.ops)):
+                                ok_uses = False
+                        else:
+                            ok_uses = False
+                if ok_uses:
+                    continue
             # handed back to the caller (directly or through a compute-once table): every caller only tests membership
             f = enclosing(n, ast.FunctionDef)
             if f is not None and (isinstance(p, ast.Return) or (isinstance(p, ast.Assign) and isinstance(p.targets[0], ast.Subscript)
